@@ -632,7 +632,11 @@ fn main() {
         eprintln!("usage: kmsim run|one|minimise|replay ...");
         std::process::exit(2);
     }
-    let code = match args[0].as_str() {
+    // Panics of the code under test are caught inside the simulated execution and become
+    // verdicts there.  A panic that gets as far as this frame is the harness's own (a
+    // scratch file that cannot be written because the tmpfs is full, a bug in an oracle):
+    // exit 2, never a verdict about the property.
+    let r = std::panic::catch_unwind(|| match args[0].as_str() {
         "run" => cmd_run(&args[1..]),
         "one" => cmd_one(&args[1..]),
         "minimise" => cmd_minimise(&args[1..]),
@@ -640,6 +644,13 @@ fn main() {
         "replay" => cmd_replay(&args[1..]),
         other => {
             eprintln!("unknown command {other}");
+            2
+        }
+    });
+    let code = match r {
+        Ok(c) => c,
+        Err(p) => {
+            eprintln!("HARNESS-ERROR: the harness itself panicked outside a simulated execution: {}", verif_rt::sched::panic_text(&p));
             2
         }
     };
